@@ -1,3 +1,6 @@
+#[cfg(kanal_verif)]
+#[allow(unused_imports)]
+use crate::verif::{core, std};
 use core::{
     cell::UnsafeCell,
     mem::{forget, size_of, zeroed, MaybeUninit},
